@@ -58,6 +58,7 @@ type HistCfg struct {
 	// follow-up probes
 	PreReset          bool // sample `reflog` before every reset
 	Idempotent        bool // repeat a successful add and demand that nothing changes
+	JunkSweep         bool // every 8th history ends with the whole table of malformed invocations
 	StatusAfterCommit bool // `status` right after a successful commit must list nothing staged
 	CommitFirst       bool // start with one commit
 	FreshPct          int  // percent of cases that start without any commit (default 15 via histCheck)
@@ -249,6 +250,16 @@ func (h *Hist) respell(args []string) {
 		}
 		args[i] = h.r.pick([]string{"./" + a, a + "/", ".//" + a, "./" + a + "/", strings.Replace(a, "/", "//", 1), strings.Replace(a, "/", "/./", 1)})
 	}
+}
+
+// IsTrackedDir: some staged path lies beneath d
+func IsTrackedDir(o *Obs, d string) bool {
+	for _, e := range o.Index {
+		if strings.HasPrefix(string(e.path), d+"/") {
+			return true
+		}
+	}
+	return false
 }
 
 func argvLine(tz int, args []string) string {
@@ -757,10 +768,86 @@ func (h *Hist) step() {
 		} else if len(ids) > 0 && r.chance(3, 4) {
 			id = ids[r.intn(len(ids))]
 		}
+		if r.chance(1, 8) {
+			// malformed ids: every short length, one too short, one too long, upper case, a non-hex digit
+			id = r.pick([]string{"", id[:1], id[:2], id[:7], id[:39], id + "0", strings.ToUpper(id), "g" + id[1:], id[:20] + " " + id[21:]})
+		}
 		h.X(tz, "update-ref", "refs/heads/"+b, id)
+	case "twins":
+		// several tracked files with identical bytes in one directory (and below it), then all of them
+		// modified or deleted and the directory restored / re-added / removed: nothing may be keyed by content
+		d := h.comp()
+		data := h.content()
+		names := []string{d + "/" + h.comp(), d + "/" + h.comp() + "2", d + "/" + h.comp() + "/" + h.comp()}
+		for _, n := range names {
+			h.W("write", n, data)
+		}
+		h.X(tz, "add", d)
+		if r.chance(1, 2) {
+			h.X(tz, "commit", "-m", "twins")
+		}
+		for _, n := range names {
+			if r.chance(1, 2) {
+				h.W("write", n, h.content())
+			} else {
+				h.W("rm", n, nil)
+			}
+		}
+		switch r.intn(4) {
+		case 0, 1:
+			h.X(tz, "restore", d)
+		case 2:
+			h.X(tz, "add", d)
+		default:
+			h.X(tz, "rm", d)
+		}
+		h.X(tz, "status")
+	case "edit-same-size":
+		// change one byte of a file without changing its length (nothing but the bytes tells it apart)
+		if f, ok := h.pickFile(); ok {
+			if data := h.obs.Files[f]; len(data) > 0 {
+				nd := append([]byte{}, data...)
+				i := r.intn(len(nd))
+				nd[i] ^= byte(1 + r.intn(255))
+				h.W("write", f, nd)
+			}
+		}
+	case "fd-swap":
+		// a tracked directory replaced by a file of its name (or a tracked file by a directory), staged, then
+		// `restore --staged` / `status` / `commit` on that name: HEAD holds the other kind under the same name
+		if r.chance(1, 2) {
+			if d, ok := h.pickDir(); ok && IsTrackedDir(h.obs, d) {
+				h.X(tz, "rm", d)
+				h.W("rmall", d, nil)
+				h.W("write", d, h.content())
+				h.X(tz, "add", d)
+				h.X(tz, "status")
+				if r.chance(2, 3) {
+					h.X(tz, "restore", "--staged", d)
+				} else {
+					h.X(tz, "commit", "-m", "dir became a file")
+				}
+				h.X(tz, "status")
+			}
+		} else if f, ok := h.pickTracked(); ok && f != ".goitignore" {
+			if _, on := h.obs.Files[f]; on {
+				h.X(tz, "rm", f)
+				h.W("write", f+"/"+h.comp(), h.content())
+				h.X(tz, "add", f)
+				h.X(tz, "status")
+				h.X(tz, "restore", "--staged", f)
+				h.X(tz, "status")
+			}
+		}
 	case "config":
 		k := r.pick([]string{"user.name", "user.email", "core.editor", "user.signingkey", "alias.co"})
 		v := r.pick([]string{"Alice", "Bob Builder", "a@example.com", "b.c+d@mail.example.org", "vim", "x=y", "[v]", "# v", "\"q\"", "ünï"})
+		if r.chance(1, 12) {
+			// degenerate section / key names and values with a line break: to be refused, or stored so that they load
+			k = r.pick([]string{".", ".name", "user.", "a]b.k", "[x].k", "sec tion.k", "user.na me", "u\nser.name"})
+		} else if r.chance(1, 15) {
+			v = r.pick([]string{"two\nlines", "cr\rlf", "line\n[user]\n\tname = Mallory"})
+		}
 		if r.chance(1, 4) {
 			h.X(tz, "config", "--global", k, v)
 		} else {
@@ -772,7 +859,11 @@ func (h *Hist) step() {
 		if r.chance(1, 2) {
 			h.X(tz, "log")
 		} else {
-			h.X(tz, "log", "-n", fmt.Sprint(r.intn(8)))
+			if r.chance(1, 10) {
+				h.X(tz, "log", "-n", r.pick([]string{"1000000", "2147483647", "4294967296", "9223372036854775807"}))
+			} else {
+				h.X(tz, "log", "-n", fmt.Sprint(r.intn(8)))
+			}
 		}
 	case "reflog":
 		h.X(tz, "reflog")
@@ -804,10 +895,8 @@ func (h *Hist) step() {
 	}
 }
 
-// malformed / refused invocations
-func (h *Hist) junk(tz int) {
-	r := h.r
-	cands := [][]string{
+func junkCands() [][]string {
+	return [][]string{
 		{"add"}, {"rm"}, {"commit"}, {"branch"}, {"branch", "a", "b"}, {"branch", "--list", "x"}, {"branch", "-r", "x", "-d", "y"},
 		{"switch"}, {"switch", "a", "b"}, {"switch", "-c", "x", "y"}, {"reset"}, {"reset", "--soft"}, {"reset", "--soft", "--hard", "HEAD@{0}"},
 		{"reset", "--mixed=false", "HEAD@{0}"}, {"restore"}, {"restore", "--staged"}, {"update-ref"}, {"update-ref", "refs/heads/main"},
@@ -820,7 +909,21 @@ func (h *Hist) junk(tz int) {
 		{"frobnicate"}, {"status", "extra"}, {"reflog", "extra"},
 		{"switch", "-c", "a: b"}, {"branch", "x: y"}, {"branch", "-r", "n: m"}, {"switch", "-c", "sp ace"}, {"branch", "tab\tname"}, {"switch", "-c", "ref: refs/heads/x"},
 		{"switch", "a: b"}, {"switch", "sp ace"}, {"branch", "-d", "x: y"}, {"branch", "ünï"}, {"switch", "-c", "(paren"}, {"branch", "nl\nname"},
+		// ids of every short length, one too long; empty arguments; numbers at and beyond the limits
+		{"update-ref", "refs/heads/main", ""}, {"update-ref", "refs/heads/main", "a"}, {"update-ref", "refs/heads/main", "ab"},
+		{"update-ref", "refs/heads/main", strings.Repeat("a", 39)}, {"update-ref", "refs/heads/main", strings.Repeat("a", 41)}, {"update-ref", "refs/heads/", strings.Repeat("a", 40)},
+		{"rev-parse", ""}, {"rev-parse", "a"}, {"rev-parse", strings.Repeat("a", 39)}, {"cat-file", "-p", ""}, {"cat-file", "-t", "a"}, {"cat-file", "-p", strings.Repeat("a", 41)},
+		{"add", ""}, {"rm", ""}, {"restore", ""}, {"restore", "--staged", ""}, {"switch", ""}, {"switch", "-c", ""}, {"branch", ""}, {"branch", "-d", ""}, {"branch", "-r", ""},
+		{"config", "", "x"}, {"config", "user.name", ""}, {"config", ".", "x"}, {"config", "user.", "x"}, {"config", ".name", "x"}, {"hash-object", ""},
+		{"reset", "HEAD@{99999999999999999999}"}, {"reset", "HEAD@{-1}"}, {"reset", "HEAD@{0}", "HEAD@{0}"}, {"reset", "--hard", "HEAD@{}"}, {"reset", "--soft", "HEAD@{ 1}"},
+		{"log", "-n", "abc"}, {"log", "-n", "1000000"}, {"log", "-n", "2147483647"}, {"log", "-n", "4294967296"}, {"log", "-n", "9223372036854775807"}, {"log", "-n", "9223372036854775808"},
 	}
+}
+
+// malformed / refused invocations
+func (h *Hist) junk(tz int) {
+	r := h.r
+	cands := junkCands()
 	h.X(tz, cands[r.intn(len(cands))]...)
 }
 
@@ -874,6 +977,15 @@ func runHistCase(ctx *Ctx, cfg *HistCfg, r *rng, idx int) (Case, []string, []Fin
 	n := cfg.MinSteps + r.intn(cfg.MaxSteps-cfg.MinSteps+1)
 	for i := 0; i < n; i++ {
 		h.step()
+	}
+	// every 8th hostile history ends with the whole table of malformed invocations, in a rotated order, so
+	// that each of them meets several reachable states in every run
+	if cfg.JunkSweep && idx%8 == 0 {
+		cands := junkCands()
+		off := r.intn(len(cands))
+		for i := range cands {
+			h.X(0, cands[(i+off)%len(cands)]...)
+		}
 	}
 	c := Case{Name: fmt.Sprintf("hist-%d", idx), Lines: h.lines, Tag: fmt.Sprintf("steps<%d", (len(h.lines)/10+1)*10)}
 	for i := range h.viols {
